@@ -149,14 +149,18 @@ func (s *store) Index(_ context.Context, keys []string, opts ...IndexOptions) er
 		idx.Keys = append(idx.Keys, types.NewString(k))
 	}
 
-	for _, i := range s.segment.Indexes() {
+	replaced := s.segment.Indexes()
+	if err := s.segment.Index(idx); err != nil {
+		return err
+	}
+	for _, i := range replaced {
 		if slices.Equal(i.Keys, idx.Keys) {
 			if err := s.segment.Unindex(i); err != nil {
 				return err
 			}
 		}
 	}
-	return s.segment.Index(idx)
+	return nil
 }
 
 func (s *store) Unindex(_ context.Context, keys []string) error {
